@@ -112,6 +112,9 @@ class Database:
         kind, info = _classify_statement(sql)
         if kind == "noop":
             return []
+        if kind == "unique-index":
+            self.tables[info[0]].uniques.append(list(info[1]))
+            return []
         if kind == "create":
             t = parse_create_table(sql)
             if t.name in self.tables:
@@ -195,7 +198,10 @@ def _classify_statement(sql: str) -> Tuple[str, Any]:
     s = " ".join(sql.split())
     up = s.upper()
     out: Tuple[str, Any]
-    if up.startswith("PRAGMA") or up.startswith("CREATE INDEX"):
+    if up.startswith("CREATE UNIQUE INDEX"):
+        m = re.match(r"CREATE UNIQUE INDEX (\w+) ON (\w+)\s*\((.*?)\)", s, re.I)
+        out = ("unique-index", (m.group(2), [c.strip() for c in m.group(3).split(",")]))
+    elif up.startswith("PRAGMA") or up.startswith("CREATE INDEX"):
         out = ("noop", None)
     elif up.startswith("CREATE TABLE"):
         out = ("create", None)
